@@ -8,8 +8,10 @@ import (
 	"sort"
 	"strings"
 
+	"github.com/cloudwego/eino/callbacks"
 	"github.com/cloudwego/eino/components/model"
 	"github.com/cloudwego/eino/compose"
+	"github.com/cloudwego/eino/flow/agent"
 	"github.com/cloudwego/eino/flow/agent/react"
 	"github.com/cloudwego/eino/schema"
 
@@ -526,6 +528,11 @@ func runC09React(t *kernel.Tape, opt core.Opts) *core.Outcome {
 	}
 	results := make([]*result, nc)
 	inputs := make([][]*schema.Message, nc)
+	// every caller passes the same shared option (a slice with spare capacity, as an
+	// application-wide default would be) plus an option of its own
+	base := make([]compose.Option, 1, 4)
+	base[0] = compose.WithCallbacks(tagHandler(env, ""))
+	shared := agent.WithComposeOptions(base...)
 	for i := 0; i < nc; i++ {
 		i := i
 		results[i] = &result{}
@@ -540,11 +547,14 @@ func runC09React(t *kernel.Tape, opt core.Opts) *core.Outcome {
 				r.done = true
 			}()
 			ctx := withTag(context.Background(), tag)
+			// (designated to the model node: the framework looks designated handlers up again
+			// at every execution of the node, i.e. also long after the call started)
+			own := agent.WithComposeOptions(compose.WithCallbacks(tagHandler(env, tag)).DesignateNode("chat"))
 			if kinds[i] == 0 {
-				r.msg, r.err = ag.Generate(ctx, inputs[i])
+				r.msg, r.err = ag.Generate(ctx, inputs[i], shared, own)
 				return
 			}
-			sr, err := ag.Stream(ctx, inputs[i])
+			sr, err := ag.Stream(ctx, inputs[i], shared, own)
 			if err != nil {
 				r.err = err
 				return
@@ -603,6 +613,12 @@ func runC09React(t *kernel.Tape, opt core.Opts) *core.Outcome {
 			}
 		}
 	}
+	for _, v := range env.problems {
+		o.Violate(v.Class, v.Msg)
+	}
+	for k, v := range env.probes {
+		o.Stat("probe."+k, v)
+	}
 	o.Stat("scenario.react_concurrent", 1)
 	o.Stat("callers", nc)
 	return o
@@ -610,4 +626,27 @@ func runC09React(t *kernel.Tape, opt core.Opts) *core.Outcome {
 
 func init() {
 	core.AltRunners["C09"] = runC09React
+}
+
+// tagHandler builds a callback handler owned by one caller (owner "" = shared by all): it
+// must only ever be invoked in the context of its owner's run.
+func tagHandler(env *aenv, owner string) callbacks.Handler {
+	check := func(ctx context.Context, info *callbacks.RunInfo, timing string) context.Context {
+		env.probes["agent_callback_events"]++
+		if owner != "" && tagOf(ctx) != owner {
+			env.problems = append(env.problems, core.Violation{Class: "C09/callback-context-leak",
+				Msg: fmt.Sprintf("the callback handler passed by caller %s was invoked (%s of %s) in the context of caller %s", owner, timing, info.Name, tagOf(ctx))})
+		}
+		if owner != "" {
+			env.probes["own_handler_events:"+owner]++
+		}
+		return ctx
+	}
+	return callbacks.NewHandlerBuilder().
+		OnStartFn(func(ctx context.Context, info *callbacks.RunInfo, _ callbacks.CallbackInput) context.Context {
+			return check(ctx, info, "start")
+		}).
+		OnEndFn(func(ctx context.Context, info *callbacks.RunInfo, _ callbacks.CallbackOutput) context.Context {
+			return check(ctx, info, "end")
+		}).Build()
 }
